@@ -8,6 +8,8 @@ import (
 	"encoding/binary"
 	"fmt"
 	"hash/fnv"
+	"os"
+	"path/filepath"
 	"sort"
 	"strings"
 	"testing"
@@ -144,6 +146,22 @@ func TestVerif_C33(t *testing.T) {
 			fmt.Println("INFO C33 hashFromString no longer depends on binary.NativeEndian: byte-order runs are identical by construction")
 		}
 
+		// the simulation models exactly one architecture-dependent construct; say so if the source has others
+		if src, err := os.ReadFile(filepath.Join(os.Getenv("VERIF_REPO"), "felix/bpf/consistenthash/consistenthash.go")); err == nil {
+			var other []string
+			for _, pat := range []string{"unsafe.", "runtime.GOARCH", "nativeEndian", "bits.UintSize", "uintptr"} {
+				if strings.Contains(string(src), pat) {
+					other = append(other, pat)
+				}
+			}
+			c.Extra("source_uses_NativeEndian", strings.Contains(string(src), "binary.NativeEndian"))
+			if len(other) > 0 {
+				c.NotExhaustive(fmt.Sprintf("consistenthash.go contains further architecture-dependent constructs %v that the byte-order simulation does not model", other))
+			}
+		} else {
+			c.Assume("could not read the package source to look for further architecture-dependent constructs: " + err.Error())
+		}
+
 		// table sizes from the real config code
 		cfg := config.New()
 		sizes := map[int]int{} // m -> smallest max-endpoints value that yields it
@@ -236,7 +254,8 @@ func TestVerif_C33(t *testing.T) {
 			}
 			c.Outcome(fmt.Sprintf("backends<=slots=%v floor=ceil=%v", len(names) <= m, lo == hi))
 			// insertion order, duplicates, nil
-			for _, o := range c33Orders(len(eps)) {
+			orders := c33Orders(len(eps))
+			for oi, o := range orders {
 				tbl, err := c33Table(m, eps, o)
 				trans++
 				if err != nil {
@@ -244,7 +263,11 @@ func TestVerif_C33(t *testing.T) {
 					return
 				}
 				if d := c33Diff(ref, tbl); d != "" {
-					c.Violation("C33:insertion-order-dependent-table", detail(map[string]any{"order": o, "diff": d}))
+					key := "C33:insertion-order-dependent-table"
+					if oi == len(orders)-1 {
+						key = "C33:duplicate-or-nil-add-changes-table"
+					}
+					c.Violation(key, detail(map[string]any{"order": o, "diff": d}))
 					return
 				}
 			}
